@@ -333,6 +333,15 @@ def _{name}_array(self, other):
 def default_range(slice, max):
     return range(*slice.indices(max))
 
+def wrap_index(index, size):
+    # Negative indices count from the end (sizes are not strict for positive indices)
+    if index >= 0: return index
+    if index + size >= 0: return index + size
+    raise IndexError(f'index {index} is out of bounds for axis 0 with size {size}')
+
+def wrap_indices(index, size):
+    return [i if i >= 0 else wrap_index(i, size) for i in index]
+
 def unpack_index(index, ndim):
     indim = len(index)
     if indim == ndim:
@@ -1636,7 +1645,7 @@ class SparseVector:
             return self[index.nonzero() if hasattr(index, 'nonzero') else np.nonzero(index)]
         if ndim == 1:
             arr = np.zeros(len(index))
-            for n, i in enumerate(index):
+            for n, i in enumerate(wrap_indices(index, self.size)):
                 if i in dct: arr[n] = dct[i]
             return arr
         elif index.__class__ is slice:
@@ -1649,6 +1658,7 @@ class SparseVector:
         elif ndim:
             raise IndexError(f'index can be at most 1-d, not {ndim}-d')    
         else:
+            if index < 0: index = wrap_index(index, self.size)
             return dct.get(index, 0.)
 
     def __setitem__(self, index, value):
@@ -1665,6 +1675,7 @@ class SparseVector:
                 )
             index, = index.nonzero() if hasattr(index, 'nonzero') else np.nonzero(index)
         if ndim == 1:
+            index = wrap_indices(index, self.size)
             if vd == 1:
                 for i, j in zip(index, value): 
                     if j: dct[i] = float(j)
@@ -1710,10 +1721,12 @@ class SparseVector:
             raise IndexError(
                 'cannot set an array element with a sequence'
             )
-        elif value:
-            dct[index] = float(value)
-        elif index in dct:
-            del dct[index]
+        else:
+            if index < 0: index = wrap_index(index, self.size)
+            if value:
+                dct[index] = float(value)
+            elif index in dct:
+                del dct[index]
     
     exec(sparse_vector_math.format(name='add'))
     exec(sparse_vector_math.format(name='sub'))
@@ -2693,7 +2706,7 @@ class SparseLogicalVector:
             return self[index.nonzero() if hasattr(index, 'nonzero') else np.nonzero(index)]
         if ndim == 1:
             arr = np.zeros(len(index), dtype=bool)
-            for n, i in enumerate(index):
+            for n, i in enumerate(wrap_indices(index, self.size)):
                 if i in set: arr[n] = True
             return arr
         elif index.__class__ is slice:
@@ -2706,6 +2719,7 @@ class SparseLogicalVector:
         elif ndim:
             raise IndexError(f'index can be at most 1-d, not {ndim}-d')    
         else:
+            if index < 0: index = wrap_index(index, self.size)
             return True if index in set else False
 
     def __setitem__(self, index, value):
@@ -2722,6 +2736,7 @@ class SparseLogicalVector:
                 )
             index, = index.nonzero() if hasattr(index, 'nonzero') else np.nonzero(index)
         if ndim == 1:
+            index = wrap_indices(index, self.size)
             if vd == 1:
                 for i, j in zip(index, value): 
                     if j: set.add(i)
@@ -2765,10 +2780,12 @@ class SparseLogicalVector:
             raise IndexError(
                 'cannot set an array element with a sequence'
             )
-        elif value:
-            set.add(index)
         else:
-            set.discard(index)
+            if index < 0: index = wrap_index(index, self.size)
+            if value:
+                set.add(index)
+            else:
+                set.discard(index)
     
     exec(sparse_logical_vector_math_pseudo_optimized.format(name='add'))
     exec(sparse_logical_vector_math_pseudo_optimized.format(name='mul'))
